@@ -1,7 +1,8 @@
 ------------------------------- MODULE PbJudge -------------------------------
 (* The specification as judge of protobuf outputs: each record of VERIF_TRACE *)
 (* is {id, sid, ty, ref, out}; the bytes `out` produced by pilota must decode, *)
-(* under the schema, to the value the reference bytes `ref` denote.           *)
+(* under the schema, to the value the reference bytes `ref` denote, and every  *)
+(* varint in them must carry the number its declared type prescribes (Narrow). *)
 EXTENDS PbSchema, Json, IOUtils
 Schemas == ndJsonDeserialize(IOEnv.VERIF_SCHEMAS)
 Trc == ndJsonDeserialize(IOEnv.VERIF_TRACE)
@@ -9,6 +10,6 @@ SchemaOf(sid) == Schemas[CHOOSE i \in 1..Len(Schemas) : Schemas[i].name = sid]
 Good(e) == LET D == SchemaOf(e.sid)
                a == Dec(D, e.ty, e.out)
                b == Dec(D, e.ty, e.ref)
-           IN a.ok /\ b.ok /\ a.v = b.v
+           IN a.ok /\ b.ok /\ a.v = b.v /\ Narrow(D, e.ty, e.out)
 ASSUME ndJsonSerialize(IOEnv.VERIF_OUT, SetToSeq({[id |-> Trc[i].id] : i \in {j \in 1..Len(Trc) : ~Good(Trc[j])}}))
 =============================================================================
